@@ -1,6 +1,7 @@
 import Bxh.Model.Mempool
 import Bxh.Proofs.PoolBatch
 import Bxh.Proofs.PoolHeld
+import Bxh.Proofs.PoolOnce
 /-!
 # C18 — the pool batches each account's transactions in gap-free nonce order, once
 Theorems about `generateBlock` / `genStep` / `drainSkipped` of `Bxh.Mempool`
@@ -135,6 +136,168 @@ call that generates nothing leaves the number alone -/
 theorem C18_seqno_steps_by_one (p : Pool) :
     (∀ p' b, generateBlock p = (p', some b) → p'.seqNo = p.seqNo + 1 ∧ b.height = p.seqNo + 1) ∧
     (∀ p', generateBlock p = (p', none) → p'.seqNo = p.seqNo) := generateBlock_seqNo p
+
+/-! ### …and over whole histories: never the same (account, nonce) twice before it is committed -/
+
+/-- `generateBlock`, whatever it answers: afterwards the batched set is the set before plus the pointers of this batch -/
+theorem generateBlock_batched (p : Pool) (x : Ptr) :
+    x ∈ (generateBlock p).1.batched ↔ (x ∈ p.batched ∨ x ∈ batchPointers p) := by
+  unfold generateBlock batchPointers
+  simp only
+  generalize (if p.nonBatch > p.batchSize then p.batchSize else p.nonBatch) = limit
+  have hI := fold_binv p limit (sortPrio p.priority) { pool := p } (binv_init p)
+  split
+  · exact hI.grown x
+  · exact hI.grown x
+
+/-- when `generateBlock` answers with the "batch with 0 txs" error it has batched nothing -/
+theorem generateBlock_none (p : Pool) (h : (generateBlock p).2 = none) : batchPointers p = [] := by
+  unfold generateBlock at h
+  unfold batchPointers
+  simp only at h ⊢
+  generalize (if p.nonBatch > p.batchSize then p.batchSize else p.nonBatch) = limit at h ⊢
+  split at h
+  · rename_i hc
+    simp only [Bool.and_eq_true, List.isEmpty_iff] at hc
+    exact hc.1.2
+  · cases h
+
+inductive Op
+  | process (txs : List TxR) (isLeader : Bool) (group : Nat)
+  | generate
+  | commit (hashes : List String)
+  | evict (cut : Nat)
+
+def step (p : Pool) : Op → Pool
+  | .process txs l g => (process p txs l g).1
+  | .generate => (generate p).1
+  | .commit hs => commit p hs
+  | .evict cut => (evict p cut).1
+
+def run (p : Pool) (ops : List Op) : Pool := ops.foldl step p
+
+/-- the (account, nonce) pointers an operation hands to consensus (`[]`: it builds no batch) -/
+def emitted (p : Pool) : Op → List Ptr
+  | .process txs l g =>
+    if l && (processPre p txs g).nonBatch ≥ (processPre p txs g).batchSize && !(processPre p txs g).timed
+    then batchPointers (processPre p txs g) else []
+  | .generate => if !p.timed && p.nonBatch == 0 then [] else batchPointers p
+  | _ => []
+
+/-- `emitted` is what the batch of the operation is made of -/
+theorem emitted_is_the_batch (p : Pool) :
+    (∀ b, (generate p).2 = some b → b.txs = (emitted p .generate).map (fun ptr => KV.get (generate p).1.items ptr)) ∧
+    (∀ txs l g b, (process p txs l g).2 = some b →
+      b.txs = (emitted p (.process txs l g)).map (fun ptr => KV.get (process p txs l g).1.items ptr)) := by
+  constructor
+  · intro b hb
+    unfold generate at hb ⊢
+    unfold emitted
+    split
+    · rename_i hc; rw [if_pos hc] at hb; cases hb
+    · rename_i hc
+      rw [if_neg hc] at hb
+      exact C18_batch_is_pointer_image p (generateBlock p).1 b (Prod.ext rfl hb)
+  · intro txs l g b hb
+    simp only [emitted]
+    rw [process_eq] at hb ⊢
+    split
+    · rename_i hc
+      rw [if_pos hc] at hb
+      exact C18_batch_is_pointer_image _ (generateBlock (processPre p txs g)).1 b (Prod.ext rfl hb)
+    · rename_i hc; rw [if_neg hc] at hb; cases hb
+
+/-- one operation: only batch building adds to the batched set, what it adds was not in it, and only a commit that names
+the transaction takes a pointer out -/
+theorem step_batched (p : Pool) (op : Op) (x : Ptr) :
+    (x ∈ (step p op).batched ↔ ((x ∈ p.batched ∧ (x ∈ (step p op).batched)) ∨ x ∈ emitted p op)) ∧
+    (x ∈ emitted p op → x ∉ p.batched) ∧
+    (x ∈ p.batched → x ∉ (step p op).batched → ∃ hs, op = .commit hs ∧ ∃ h ∈ hs, KV.get p.hashMap h = some x) := by
+  cases op with
+  | process txs l g =>
+    simp only [step, emitted]
+    rw [process_eq]
+    split
+    · have hg := generateBlock_batched (processPre p txs g) x
+      rw [processPre_batched] at hg
+      refine ⟨?_, ?_, ?_⟩
+      · rw [hg]; constructor
+        · rintro (h | h)
+          · exact Or.inl ⟨h, Or.inl h⟩
+          · exact Or.inr h
+        · rintro (⟨h, _⟩ | h)
+          · exact Or.inl h
+          · exact Or.inr h
+      · intro hx
+        have := (C18_generate_gap_free_no_repeat (processPre p txs g)).2.1 x hx
+        rwa [processPre_batched] at this
+      · intro hx hnx; exact absurd (hg.mpr (Or.inl hx)) hnx
+    · simp only [processPre_batched]
+      refine ⟨by simp, by simp, fun hx hnx => absurd hx hnx⟩
+  | generate =>
+    simp only [step, emitted]
+    unfold generate
+    split
+    · refine ⟨by simp, by simp, fun hx hnx => absurd hx hnx⟩
+    · have hg := generateBlock_batched p x
+      refine ⟨?_, ?_, ?_⟩
+      · rw [hg]; constructor
+        · rintro (h | h)
+          · exact Or.inl ⟨h, Or.inl h⟩
+          · exact Or.inr h
+        · rintro (⟨h, _⟩ | h)
+          · exact Or.inl h
+          · exact Or.inr h
+      · intro hx; exact (C18_generate_gap_free_no_repeat p).2.1 x hx
+      · intro hx hnx; exact absurd (hg.mpr (Or.inl hx)) hnx
+  | commit hs =>
+    simp only [step, emitted]
+    have hc := commit_batched p hs x
+    refine ⟨?_, by simp, fun hx hnx => ⟨hs, rfl, hc.2 hx hnx⟩⟩
+    constructor
+    · intro h; exact Or.inl ⟨hc.1 h, h⟩
+    · rintro (⟨_, h⟩ | h)
+      · exact h
+      · cases h
+  | evict cut =>
+    simp only [step, emitted, evict_batched]
+    refine ⟨by simp, by simp, fun hx hnx => absurd hx hnx⟩
+
+/-- **never the same (account, nonce) twice before it is committed — over any history** of admissions, batch generations,
+commit notifications (whatever they name, in whatever order) and evictions, from any pool state: if a pointer is in the
+batched set and a later operation of the history hands it to consensus again, then in between a commit notification named a
+hash the pool held for exactly that pointer -/
+theorem C18_history_rebatch_only_after_commit (pre : List Op) (p : Pool) (op : Op) (x : Ptr)
+    (hx : x ∈ p.batched) (he : x ∈ emitted (run p pre) op) :
+    ∃ pre1 hs post1, pre = pre1 ++ Op.commit hs :: post1 ∧ ∃ h ∈ hs, KV.get (run p pre1).hashMap h = some x := by
+  induction pre generalizing p with
+  | nil => exact absurd hx ((step_batched p op x).2.1 he)
+  | cons o rest ih =>
+    by_cases hin : x ∈ (step p o).batched
+    · obtain ⟨pre1, hs, post1, e, h, hh, hg⟩ := ih (step p o) hin he
+      exact ⟨o :: pre1, hs, post1, by rw [e]; rfl, h, hh, hg⟩
+    · obtain ⟨hs, e, h, hh, hg⟩ := (step_batched p o x).2.2 hx hin
+      exact ⟨[], hs, rest, by rw [e]; rfl, h, hh, hg⟩
+
+/-- the same for two batches of one history: between two operations that hand the same pointer to consensus lies a commit
+notification naming it -/
+theorem C18_history_no_double_batch (pre mid : List Op) (p : Pool) (op1 op2 : Op) (x : Ptr)
+    (h1 : x ∈ emitted (run p pre) op1) (h2 : x ∈ emitted (run p (pre ++ op1 :: mid)) op2) :
+    ∃ m1 hs m2, mid = m1 ++ Op.commit hs :: m2 ∧ ∃ h ∈ hs, KV.get (run p (pre ++ op1 :: m1)).hashMap h = some x := by
+  have hb : x ∈ (step (run p pre) op1).batched := ((step_batched (run p pre) op1 x).1).mpr (Or.inr h1)
+  have e : ∀ l, run p (pre ++ op1 :: l) = run (step (run p pre) op1) l := by
+    intro l; simp [run, List.foldl_append]
+  rw [e] at h2
+  obtain ⟨m1, hs, m2, em, h, hh, hg⟩ := C18_history_rebatch_only_after_commit mid _ op2 x hb h2
+  exact ⟨m1, hs, m2, em, h, hh, by rw [e]; exact hg⟩
+
+-- the exception is real and the premises are met: nonce 0 is batched, committed by its hash, offered again under another
+-- hash (a pool that lags behind: committed nonce still 0), and batched a second time
+example :
+    let t0 : TxR := { acct := "a", nonce := 0, hash := "h0", ts := 1 }
+    let p : Pool := { nonBatch := 1, items := [(("a", 0), t0)], hashMap := [("h0", ("a", 0))], nidx := [("a", 0)], priority := [(1, "a", 0)] }
+    emitted p .generate = [("a", 0)] ∧ ("a", 0) ∈ (step p .generate).batched ∧
+    ("a", 0) ∉ (run p [.generate, .commit ["h0"]]).batched := by decide +kernel
 
 /-- non-vacuity: nonces 0,1,2 of one account ready (committed nonce 0), nonce 1 listed twice in the priority index
 (a superseded transaction), nonce 4 parked: the batch is 0,1,2 -/
